@@ -1,5 +1,6 @@
 import BSEModel.Compose
 import BSEProofs.Lemmas.Dict
+import BSEProofs.Lemmas.ComposeSpec
 /-! # C01 — get_basis returns exactly the curated data it is composed from
 
 Statements about `BSE.Compose` (the model of `compose.py` + `manip.merge_element_data`): what the
@@ -221,6 +222,53 @@ theorem get?_update_single (d : Dict) (pre post : Dict) (k : String) (v : J)
   unfold Dict.update at this
   rw [this, get?_set_same]
 
+/-! ### refinement: the composition the code performs (with its per-file tables) is the specification -/
+
+/-- **compose_elemental_basis = specification**: if it returns, the result is the element file with each element
+replaced, in order, by the merge of exactly the component entries `designated` names for it (element file →
+`components` list → that element's entry in each component, reference keys wrapped with the component's description) -/
+theorem composeElemental_refines (dir : Dir) (p : String) (r : Dict) (h : composeElemental dir p = .ok r) :
+    ∃ (el_bs els : Dict) (newEls : List (String × J)),
+      readBasis dir p = .ok el_bs ∧ Dict.get? el_bs "elements" = some (.obj els)
+      ∧ r = Dict.set el_bs "elements" (.obj newEls)
+      ∧ newEls.length = els.length
+      ∧ ∀ i (h1 : i < els.length) (h2 : i < newEls.length), Dict.get? els els[i].1 = some els[i].2 →
+          ∃ datas merged, designated dir p els[i].1 = .ok datas ∧ mergeElementData datas [] = .ok merged
+            ∧ newEls[i] = (els[i].1, J.obj merged) :=
+  composeElemental_spec dir p r h
+
+/-- … hence the shells and reference groups of every composed element are exactly those of its designated components,
+concatenated in component order -/
+theorem composeElemental_shells (dir : Dir) (p : String) (r : Dict) (h : composeElemental dir p = .ok r) :
+    ∃ (els : Dict) (newEls : List (String × J)), Dict.get? r "elements" = some (.obj newEls) ∧ newEls.length = els.length
+      ∧ ∀ i (h1 : i < els.length) (h2 : i < newEls.length), Dict.get? els els[i].1 = some els[i].2 →
+          ∃ datas merged, designated dir p els[i].1 = .ok datas ∧ newEls[i] = (els[i].1, J.obj merged)
+            ∧ listOf merged "electron_shells" = datas.flatMap (listOf · "electron_shells")
+            ∧ listOf merged "references" = datas.flatMap (listOf · "references") := by
+  obtain ⟨el_bs, els, newEls, _, _, hr, hl, hi⟩ := composeElemental_spec dir p r h
+  refine ⟨els, newEls, by rw [hr, get?_set_same], hl, ?_⟩
+  intro i h1 h2 hf
+  obtain ⟨datas, merged, hd, hm, hn⟩ := hi i h1 h2 hf
+  obtain ⟨a, b⟩ := mergeElementData_from_empty datas merged hm
+  exact ⟨datas, merged, hd, hn, a, b⟩
+
+/-- **compose_table_basis = specification**: if it returns, the result is the table file with every element replaced,
+in order, by that element's entry of the composed element file the table names for it, `version` taken from the file
+name, `function_types` recomputed from the composed elements, the basis metadata merged over it, and the schema stamp -/
+theorem composeTable_refines (dir : Dir) (p : String) (t : Dict) (h : composeTable dir p = .ok t) :
+    ∃ (table els md : Dict) (newEls : List (String × J)) (v : String),
+      readBasis dir p = .ok table ∧ Dict.get? table "elements" = some (.obj els)
+      ∧ versionOf p = .ok v ∧ readBasis dir (metaPath p) = .ok md
+      ∧ t = Dict.set (Dict.update (Dict.set (Dict.set (Dict.set table "elements" (.obj newEls)) "version" (.str v))
+                "function_types" (wholeTypes newEls)) md)
+              "molssi_bse_schema" (.obj [("schema_type", .str "complete"), ("schema_version", .str "0.1")])
+      ∧ newEls.length = els.length
+      ∧ ∀ i (h1 : i < els.length) (h2 : i < newEls.length),
+          ∃ (f : String) (data dels : Dict) (val : J), els[i].2 = .str f ∧ composeElemental dir f = .ok data
+            ∧ Dict.get? data "elements" = some (.obj dels) ∧ Dict.get? dels els[i].1 = some val
+            ∧ newEls[i] = (els[i].1, val) :=
+  composeTable_spec dir p t h
+
 /-! ### version = third-from-last dot field of the table file name -/
 example : (versionOf "ahlrichs/def2-SVP.1.table.json").toOption = some "1" ∧ (versionOf "x/a.b").toOption = none := by
   decide +kernel
@@ -232,5 +280,19 @@ example : (mergeElementData [c1, c2] []).toOption.map (fun r => ((listOf r "elec
     = some (2, 2, ["electron_shells", "references", "ecp_potentials", "ecp_electrons"]) := by
   decide +kernel
 example : (mergeElementData [c2, c2] []).toOption.isNone = true := by decide +kernel
+
+/-! non-vacuity of the refinement theorems: a four-file directory on which both compositions return -/
+def schemaKV : String × J := ("molssi_bse_schema", .obj [("schema_type", .str "x")])
+def toyDir : Dir := fun p =>
+  if p = "b.0.table.json" then some (.obj [schemaKV, ("elements", .obj [("1", .str "b.0.element.json")])])
+  else if p = "b.0.element.json" then some (.obj [schemaKV, ("elements", .obj [("1", .obj [("components", .arr [.str "c.0.json"])])])])
+  else if p = "c.0.json" then some (.obj [schemaKV, ("description", .str "d"), ("elements", .obj [("1", .obj [("electron_shells", .arr [.str "s"]), ("references", .arr [.str "k"])])])])
+  else if p = "b.metadata.json" then some (.obj [schemaKV, ("names", .arr [.str "b"])])
+  else none
+example : (composeElemental toyDir "b.0.element.json").toOption.isSome = true
+    ∧ (composeTable toyDir "b.0.table.json").toOption.isSome = true
+    ∧ ((composeTable toyDir "b.0.table.json").toOption.map Dict.keys)
+        = some ["molssi_bse_schema", "elements", "version", "function_types", "names"] := by
+  decide +kernel
 
 end BSE.Props.C01
